@@ -537,6 +537,21 @@ def emit_req_v(path):
         if node.value.value not in tags[node.targets[0].id]:
             tags[node.targets[0].id].append(node.value.value)
     best = max(tags.values(), key=len) if tags else []
+    # the locals that the retry loop of poll() assigns: everything else the loop only reads (loop-invariant)
+    pf = known['poll']
+    loops = [n_ for n_ in ast.walk(pf.fn) if isinstance(n_, ast.For)]
+    assigned = []
+    if len(loops) == 1:
+        for node in ast.walk(loops[0]):
+            tg = []
+            if isinstance(node, ast.Assign):
+                for t in node.targets:
+                    tg += [t] if isinstance(t, ast.Name) else list(t.elts) if isinstance(t, ast.Tuple) else []
+            for t in tg:
+                if isinstance(t, ast.Name) and t.id in pf.locals and t.id not in assigned:
+                    assigned.append(t.id)
+    L.append('Definition g_poll_loop_stable (f : L_poll -> pyval) : Prop :=\n  '
+             + ' /\\ '.join(f'(forall l v, f ({pf.setter(v)} l v) = f l)' for v in assigned) + (' /\\ True.' if assigned else 'True.'))
     L.append('Definition g_poll_state_strings : list string := [' + '; '.join(coq_str(x) + '%string' for x in best) + '].')
     L += ['', 'Section G.', 'Context {E : Type} (B : backend E) (sk : list N).',
           'Notation fres := (@fres E).', '']
